@@ -93,7 +93,7 @@ Proof.
 Qed.
 
 (* ---- layer 3: the composition.  D3 (boolean; Compose.d3_clause, Compose3.D3):
-     environment: the store compares predicate kinds (F6), literal.Parse rejects unknown types (F3), repairs F9, F14, Foid, F24 in;
+     environment: the store compares predicate kinds (F6), literal.Parse rejects unknown types (F3), repairs F9, F14, Foid, F24, F25 in;
      graphs hold no two triples with the same key (as the store guarantees);
      at least one clause, and every clause: not OPTIONAL, not fully specified, no interval `"id"@[lb,ub]` / bound alias, no ID alias
        on the object, a predicate / object id only together with an anchor binding, pairwise different binding names inside the
@@ -139,11 +139,11 @@ Print Assumptions C03_reference_complete.
 Theorem C03_add_specified_data_spec :
   forall e gs glo c mu mu',
     d3_clause c = true -> ks e = true -> strlit_invalid e = false -> fix14 e = true -> fixoid e = true -> fixsb e = true ->
-    forallb graph_nodup gs = true -> get mu [] = None -> row_equiv mu mu' ->
+    fixzone e = true -> forallb graph_nodup gs = true -> get mu [] = None -> row_equiv mu mu' ->
     exists rows, add_specified_data e gs glo c mu = Ok rows /\ Forall2 row_equiv rows (spec_extend c glo gs mu').
 Proof.
-  intros e gs glo c mu mu' D Hks Hsl H14 Hoid Hsb Hg Hn Hm. destruct (d3_clause_d3c c D) as [Dc Hopt].
-  destruct (asd_spec e gs glo c mu mu' Dc Hks Hsl H14 Hoid Hsb Hg Hn Hm) as [rows [E F]]. exists rows. split; [exact E|].
+  intros e gs glo c mu mu' D Hks Hsl H14 Hoid Hsb Hz Hg Hn Hm. destruct (d3_clause_d3c c D) as [Dc Hopt].
+  destruct (asd_spec e gs glo c mu mu' Dc Hks Hsl H14 Hoid Hsb Hz Hg Hn Hm) as [rows [E F]]. exists rows. split; [exact E|].
   unfold spec_one in F. rewrite Hopt in F. destruct (spec_extend c glo gs mu'); exact F.
 Qed.
 Print Assumptions C03_add_specified_data_spec.
@@ -155,6 +155,13 @@ Example C03_D3_example :
   D3 (q_cfg q) (q_graphs q) (q_clauses q) (q_outs q) = true /\
   length (q_clauses q) = 2%nat /\ exists bs row, run_model q = Ok (bs, [row]).
 Proof. vm_compute. split; [reflexivity|]. split; [reflexivity|]. eexists _, _. reflexivity. Qed.
+
+(* ... and by a clause that uses a name twice (predicate binding and object binding: the predicate-valued object must be the
+   predicate, here the same instant written in two zones): inside D3 since repair F25 *)
+Example C03_D3_repeated_name_example :
+  let q := w_zone_repeated_binding (current true false) in
+  D3 (q_cfg q) (q_graphs q) (q_clauses q) (q_outs q) = true /\ exists bs row, run_model q = Ok (bs, [row]).
+Proof. vm_compute. split; [reflexivity|]. eexists _, _. reflexivity. Qed.
 
 (* ---- refutations: the full statement "the rows are exactly the solutions, for every conjunctive pattern" is false of the
    faithful model; each witness is replayed on the real planner by checks/c03.py (corpus/C03/witnesses.jsonl). *)
